@@ -176,6 +176,54 @@ theorem part_selection (e : Ext) (parts : List Part) (p : Part) :
   | nil => simp
   | cons a as => simp [List.mem_filter]
 
+/-- **part_selection_by_equality**: a part is selected iff its name is EQUAL to one of
+the tokens (the value of `part=`, or a white-space separated token of `parts=`) — never
+because it is contained in, or contains, a token; message order is kept. -/
+theorem part_selection_by_equality (e : Ext) (parts : List Part) :
+    (∀ p, p ∈ selectParts (selectedNames e) parts ↔
+      p ∈ parts ∧ (selectedNames e = [] ∨ ∃ t ∈ selectedNames e, p.name = t)) ∧
+    (selectParts (selectedNames e) parts).Sublist parts := by
+  constructor
+  · intro p
+    rw [part_selection]
+    constructor
+    · rintro ⟨h1, h2 | h2⟩
+      · exact ⟨h1, Or.inl h2⟩
+      · exact ⟨h1, Or.inr ⟨p.name, h2, rfl⟩⟩
+    · rintro ⟨h1, h2 | ⟨t, ht, hpt⟩⟩
+      · exact ⟨h1, Or.inl h2⟩
+      · exact ⟨h1, Or.inr (hpt ▸ ht)⟩
+  · unfold selectParts
+    split
+    · exact List.Sublist.refl _
+    · exact List.filter_sublist
+
+/-- **selector_tokens**: `part="v"` is the single token `v` (taken verbatim, also when
+a `parts=` attribute is present as well); `parts="…"` alone is split at white space. -/
+theorem selector_tokens (e : Ext) :
+    selectedNames e = (match aget e.attrs ws!"part", aget e.attrs ws!"parts" with
+      | some v, _ => [v]
+      | none, some vs => wsSplit vs
+      | none, none => []) := by
+  unfold selectedNames
+  cases aget e.attrs ws!"part" <;> cases aget e.attrs ws!"parts" <;> rfl
+
+namespace Witness
+def nested : List Part :=
+  [⟨ws!"re", none, some ws!"t:A", []⟩, ⟨ws!"req", none, some ws!"t:B", []⟩, ⟨ws!"request", none, some ws!"t:C", []⟩,
+   ⟨ws!"requestHeader", none, some ws!"t:D", []⟩, ⟨ws!"Header", none, some ws!"t:E", []⟩]
+def hdrSel : Ext := ⟨ws!"{s}header", [(ws!"message", ws!"{urn:t}M"), (ws!"part", ws!"requestHeader")]⟩
+def bodySel : Ext := ⟨ws!"{s}body", [(ws!"use", ws!"literal"), (ws!"parts", ws!"request  re")]⟩
+end Witness
+
+/-- names that contain one another: `part="requestHeader"` selects `requestHeader` only
+(not `request`, `req`, `re`, `Header`); `parts="request  re"` selects `re` and `request`
+(message order), not `req` / `requestHeader`. -/
+example :
+    (selectParts (selectedNames Witness.hdrSel) Witness.nested).map (·.name) = [ws!"requestHeader"] ∧
+    (selectParts (selectedNames Witness.bodySel) Witness.nested).map (·.name) = [ws!"re", ws!"request"] := by
+  decide
+
 /-- **envelope_parts**: the `Envelope` class of a binding message has one inner class
 per distinct (title-cased) extension element name — `Header`, `Body` — referenced by
 a required forward attr without own namespace (so in the envelope namespace); the
